@@ -51,6 +51,13 @@ impl Bigram {
 }
 
 pub fn gen_bigram(rng: &mut Rng, big_costs: bool, star_listed: bool) -> Bigram {
+    let nr = 1 + rng.below(4) as usize;
+    let nl = 1 + rng.below(4) as usize;
+    gen_bigram_sized(rng, big_costs, star_listed, nr, nl)
+}
+
+/// `nr` / `nl`: number of rows of bigram.right / bigram.left (ids 1..)
+pub fn gen_bigram_sized(rng: &mut Rng, big_costs: bool, star_listed: bool, nr: usize, nl: usize) -> Bigram {
     let k = match rng.below(10) {
         0 => 1,
         1 => 1 + rng.below(7) as usize,
@@ -60,8 +67,6 @@ pub fn gen_bigram(rng: &mut Rng, big_costs: bool, star_listed: bool) -> Bigram {
     };
     let pool_r = ["A", "B", "C", "x,y", "q\"t", "", "*", "D", "名詞", "A"];
     let pool_l = ["a", "b", "A", "x,y", "", "*", "c", "名詞", "d"];
-    let nr = 1 + rng.below(4) as usize;
-    let nl = 1 + rng.below(4) as usize;
     let row = |rng: &mut Rng, pool: &[&str]| -> Vec<String> {
         let len = if rng.chance(1, 4) { 1 + rng.below(k as u64) as usize } else { k };
         (0..len)
